@@ -178,6 +178,9 @@ func spawn(c *Check, tier string, seed int64, batch, only int, race bool, dir st
 		cmd.Env = append(cmd.Env, "GORACE=halt_on_error=0 history_size=3 log_path="+filepath.Join(dir, tag+".race"))
 	}
 	to := 15 * time.Minute
+	if tier == "thorough" {
+		to = 90 * time.Minute
+	}
 	if c.WorkerTimeout != nil {
 		to = c.WorkerTimeout(tier)
 	}
